@@ -241,6 +241,16 @@ def run_matrix(ck, b, ref, K, sig_ignored):
                     'co-process fault %s: VM outcome %s violates containment' % (name, cls), replay)
         if len(ck.cov['samples']) < 3 and c['fault'] in ('close_stdin', 'exit1', 'wrong_type') and c['step'] == 'reply':
             ck.sample(dict(cell=name, observed=list(cls), model_allows=sorted(set(map(str, allowed)))))
+    # replies whose decoding needs more C stack than there is: outside the model (recursion depth of cop_deserialize_value is
+    # not bounded by the model), checked against the property only
+    for c in [dict(step='reply', k=1, fault='deep_nest')]:
+        o = H.run_cell(env0, c, hang_s=1.5)
+        cls = H.classify(o, ncalls)
+        ck.count(('cell', 'extra', c['fault']), nontrivial=True)
+        if not property_ok(cls, ncalls):
+            ck.fail('c16:sigsegv:reply-decoder:' + c['fault'], 'co-process reply %s: VM outcome %s violates containment' % (c['fault'], cls),
+                    dict(case='cell', cell=c, ncalls=ncalls, unmodelled=True, observed=dict(cls=list(cls), rc=o['rc'], stderr=o['stderr'][-300:]),
+                         engine='nano_vm --isolate-ffi vs fake_cop'))
     ck.extra['matrix'] = dict(K=K, cells=len(cs), steps=H.STEPS, faults=H.FAULTS, per_fault=dist, observed_status=outcomes,
                               model_mismatches=mism, property_violations=viol)
     return env0
@@ -316,6 +326,7 @@ def run(ck):
     ck.assumptions += ['the co-process does not block or ignore SIGTERM (vm_ffi_cop_stop waits for it without a timeout after SIGTERM)',
                        'messages fit the pipe buffer (writes to an open pipe do not block); fork/pipe do not fail',
                        'a peer that stays silent forever with its pipe ends open blocks the VM forever (outcome Hang; excluded from the property\'s fault list)',
+                       'the C stack suffices for the nesting depth of a reply (recursion of cop_deserialize_value is bounded by the buffer in the model, by the stack in C; see finding deep_nest)',
                        'stdout of the VM is a file or pipe (fully buffered): output is lost exactly when the VM is killed by a signal']
 
 
@@ -333,6 +344,10 @@ def replay(ck, d):
     env0 = H.setup(b, ncalls)
     o = H.run_cell(env0, c, hang_s=1.5)
     cls = H.classify(o, ncalls)
+    if d.get('unmodelled'):
+        print('cell    :', c); print('observed:', cls, 'rc=%s' % o['rc'])
+        ok = property_ok(cls, ncalls)
+        print('REPRODUCED' if not ok else 'not reproduced'); return 0 if ok else 1
     ms = model_outcomes(ref, c, ncalls, sig['nano_vm_ignores_sigpipe'])
     print('cell    :', c)
     print('observed:', cls, 'rc=%s' % o['rc']); print('stderr  :', o['stderr'][-300:].strip())
